@@ -257,7 +257,7 @@ func c03() {
 		run.Count("events", int64(len(evs)))
 		// path-directed phase: for every branch edge the directed events did not execute, search a path to it, solve its
 		// word constraints and judge the resulting event as well
-		if len(c.Raw) <= run.N(500, 3000) {
+		if len(c.Raw) <= run.N(500, 1500) && (!run.Thorough() || i%3 == 0) {
 			pool32 := make([]uint32, 0, 2*len(pool0))
 			for _, v := range pool0 {
 				pool32 = append(pool32, uint32(v), uint32(v>>32))
@@ -270,7 +270,7 @@ func c03() {
 				return []uint32{pool32[k], pool32[(k+7)%len(pool32)], pool32[(k+13)%len(pool32)]}
 			}
 			failed := false
-			ps := vlib.CoverEdges(r, c.Raw, cov, fill, run.N(40000, 1500000), func(w [16]uint32) {
+			ps := vlib.CoverEdges(r, c.Raw, cov, fill, run.N(40000, 300000), func(w [16]uint32) {
 				e := vlib.EventFromWords(w)
 				tr, err := c.RunBoth(&w, cov, false)
 				if e.Arch != t.ID || (t.X32Guard && e.NR >= vlib.X32Bit) {
